@@ -7,6 +7,7 @@ import (
 	"os"
 	"runtime"
 	"runtime/debug"
+	"strings"
 	"time"
 
 	"verif/simrt"
@@ -136,7 +137,7 @@ func workerMain(args []string) int {
 						viol = rv
 					}
 				}
-				wo.Violations = append(wo.Violations, WorkerViolation{Index: i, RunSeed: rs, Violation: viol, Tape: rt.Rec, TapeFull: len(full), Shrunk: execs, EventHash: r.EventHash, Desc: r.Desc})
+				wo.Violations = append(wo.Violations, WorkerViolation{ChunkFrom: *from, Index: i, RunSeed: rs, Violation: viol, Tape: rt.Rec, TapeFull: len(full), Shrunk: execs, EventHash: r.EventHash, Desc: r.Desc})
 			}
 		}
 	}
@@ -184,6 +185,15 @@ func replayMain(args []string) int {
 	}
 	os.MkdirAll(*world, 0755)
 	stats := map[string]uint64{}
+	for _, f := range strings.Fields(rf.Prelude) {
+		var idx uint64
+		fmt.Sscan(f, &idx)
+		var prefix []uint64
+		if rf.Sweep {
+			prefix = c.SweepPrefix(rf.Phase, idx)
+		}
+		executeRun(c, rf.Phase, idx, NewTape(runSeed(rf.VerifSeed, rf.Property, rf.Phase, idx), prefix), *world, stats, true)
+	}
 	tp := ReplayTape(rf.Tape)
 	if rf.Tape == nil {
 		var prefix []uint64
